@@ -1,12 +1,11 @@
-"""Facts of waddrmgr/scoped_manager.go that the C03 theorems depend on,
-regenerated from the repository's current source into coq/Generated/AddrFacts.v.
+"""Facts of waddrmgr that the C03 model and theorems depend on, regenerated from
+the repository's current source into coq/Generated/AddrFacts.v.
 
   * extend_derives_private_when_unlocked: nextAddresses and extendAddresses both
-    compute  watchOnly := s.rootManager.WatchOnly() || <test on acctInfo>  and then
-    derive from the account PRIVATE key when `!s.rootManager.IsLocked() && !watchOnly`
-    and queue the new addresses for the next unlock when
-    `s.rootManager.IsLocked() && !watchOnly`.  nextAddresses' test is
-    `len(acctInfo.acctKeyEncrypted) == 0` (the account has no private key at all).
+    compute a flag "this account has no private key" and then derive from the
+    account PRIVATE key when the manager is unlocked and the account has one, and
+    queue the new addresses for the next unlock when the manager is locked and the
+    account has one.  nextAddresses' test is `len(acctInfo.acctKeyEncrypted) == 0`.
     The fact is true iff extendAddresses uses that same test; it is false for the
     inverted test `acctInfo.acctKeyPriv != nil` (an account whose private key IS in
     memory is treated as watch-only).
@@ -22,13 +21,25 @@ regenerated from the repository's current source into coq/Generated/AddrFacts.v.
     as deriveKeyFromPath does).  Without it the call dereferences a nil key for a
     cached watch-only (imported xpub) account while the manager is unlocked.
 
-Anything that is not recognised raises, so that the check reports a broken
-obligation instead of silently keeping an old value."""
-import os, re
+Each fact is determined on its own:
+  1. PRIMARY: by the shape of the source (source_fact_*), which knows the original shape
+     and the shapes that are syntactically equivalent to it (the flag written positively,
+     `hasPriv := !W && len(x) > 0`, instead of negatively, `watchOnly := W || len(x) == 0`;
+     `!= 0` for `> 0`; any flag name);
+  2. FALLBACK, only when the shape is not recognised: behaviourally (probe_facts), by
+     running the witness scenarios of the fact on the waddrmgr built from `repo` through
+     the harness module (harness/cmd/extract-c03).
+main() raises only when both paths fail for some fact (the message carries both reasons);
+bin/extract turns that into a broken obligation of C03, never into a crash.  The Generated
+file says which path produced the facts: `(* facts source: source | probe ... *)`."""
+import hashlib, json, os, re, shutil, subprocess
 
 
 class ExtractError(Exception):
     pass
+
+
+FACTS = ["extend_derives_private_when_unlocked", "new_scope_stores_last_account", "derive_cache_checks_account_key"]
 
 
 def strip_comments(src):
@@ -36,12 +47,8 @@ def strip_comments(src):
     return "\n".join(re.sub(r"//.*$", "", l) for l in src.split("\n"))
 
 
-def method_body(src, name, path):
-    m = re.search(r"^func\s+\(\s*\w+\s+\*ScopedKeyManager\s*\)\s+%s\s*\(" % re.escape(name), src, flags=re.M)
-    if not m:
-        raise ExtractError("%s: method %s not found" % (path, name))
-    # skip the parameter list and result types: the body starts at the first
-    # '{' at parenthesis depth 0 after the name
+def _body_from(src, m, what, path):
+    """the brace-matched body of the function whose header match is m"""
     i, depth = m.end() - 1, 0
     while i < len(src):
         c = src[i]
@@ -53,7 +60,7 @@ def method_body(src, name, path):
             break
         i += 1
     else:
-        raise ExtractError("%s: method %s: no body" % (path, name))
+        raise ExtractError("%s: %s: no body" % (path, what))
     depth, j = 0, i
     while j < len(src):
         if src[j] == "{":
@@ -63,151 +70,276 @@ def method_body(src, name, path):
             if depth == 0:
                 return src[i + 1:j]
         j += 1
-    raise ExtractError("%s: method %s: unbalanced braces" % (path, name))
+    raise ExtractError("%s: %s: unbalanced braces" % (path, what))
+
+
+def method_body(src, recv, name, path):
+    m = re.search(r"^func\s+\(\s*\w+\s+\*%s\s*\)\s+%s\s*\(" % (recv, re.escape(name)), src, flags=re.M)
+    if not m:
+        raise ExtractError("%s: method %s.%s not found" % (path, recv, name))
+    return _body_from(src, m, name, path)
 
 
 def func_body(src, name, path):
     m = re.search(r"^func\s+%s\s*\(" % re.escape(name), src, flags=re.M)
     if not m:
         raise ExtractError("%s: func %s not found" % (path, name))
-    i, depth = m.end() - 1, 0
-    while i < len(src):
-        c = src[i]
-        if c == "(":
-            depth += 1
-        elif c == ")":
-            depth -= 1
-        elif c == "{" and depth == 0:
-            break
-        i += 1
-    depth, j = 0, i
-    while j < len(src):
-        if src[j] == "{":
-            depth += 1
-        elif src[j] == "}":
-            depth -= 1
-            if depth == 0:
-                return src[i + 1:j]
-        j += 1
-    raise ExtractError("%s: func %s: unbalanced braces" % (path, name))
-
-
-def method_body_of(src, recv, name, path):
-    m = re.search(r"^func\s+\(\s*\w+\s+\*%s\s*\)\s+%s\s*\(" % (recv, re.escape(name)), src, flags=re.M)
-    if not m:
-        raise ExtractError("%s: method %s.%s not found" % (path, recv, name))
-    i, depth = m.end() - 1, 0
-    while i < len(src):
-        c = src[i]
-        if c == "(":
-            depth += 1
-        elif c == ")":
-            depth -= 1
-        elif c == "{" and depth == 0:
-            break
-        i += 1
-    depth, j = 0, i
-    while j < len(src):
-        if src[j] == "{":
-            depth += 1
-        elif src[j] == "}":
-            depth -= 1
-            if depth == 0:
-                return src[i + 1:j]
-        j += 1
-    raise ExtractError("%s: method %s: unbalanced braces" % (path, name))
+    return _body_from(src, m, name, path)
 
 
 def norm(s):
     return re.sub(r"\s+", "", s)
 
 
-NO_PRIVATE_KEY = "len(acctInfo.acctKeyEncrypted)==0"
-INVERTED = "acctInfo.acctKeyPriv!=nil"
+# ------------------------------------------------------------------ source shapes
+
+W = r"s\.rootManager\.WatchOnly\(\)"
+LOCKED = "s.rootManager.IsLocked()"
+# "the account has no private key"  /  "the account has a private key"
+NO_KEY = {"len(acctInfo.acctKeyEncrypted)==0": "same", "acctInfo.acctKeyPriv!=nil": "inverted"}
+HAS_KEY = {"len(acctInfo.acctKeyEncrypted)>0": "same", "len(acctInfo.acctKeyEncrypted)!=0": "same",
+           "0<len(acctInfo.acctKeyEncrypted)": "same", "acctInfo.acctKeyPriv==nil": "inverted"}
 
 
-def watch_only_test(body, fn, path):
-    # the statement `watchOnly := s.rootManager.WatchOnly() || <test>` (a Go
-    # statement continues on the next line only after a trailing operator)
+def account_key_test(body, fn, path):
+    """Which test decides "derive privately / queue for unlock" in nextAddresses or
+    extendAddresses: 'same' (the account has an encrypted private key) or 'inverted'.
+
+    Recognised, with F any identifier:
+      negative flag  F := W || T      used as  `!IsLocked() && !F { acctKey = acctKeyPriv }`  and
+                                               `IsLocked() && !F { deriveOnUnlock = append(...) }`
+      positive flag  F := !W && P     used as  `!IsLocked() && F {...}`  and  `IsLocked() && F {...}`
+    (W = s.rootManager.WatchOnly(); T in NO_KEY, P in HAS_KEY).  The two are equivalent by
+    De Morgan; a length is never negative, so `len(x) == 0` is the negation of `len(x) > 0`."""
     lines = body.split("\n")
     stmts = []
     for i, l in enumerate(lines):
-        if re.match(r"\s*watchOnly\s*:=", l):
-            st = l.strip()
-            j = i
+        if re.match(r"\s*\w+\s*:=\s*!?\s*" + W, l):
+            st, j = l.strip(), i
             while re.search(r"(\|\||&&)\s*$", st) and j + 1 < len(lines):
                 j += 1
                 st += " " + lines[j].strip()
             stmts.append(norm(st))
     if len(stmts) != 1:
-        raise ExtractError("%s: %s: expected exactly one `watchOnly := ...` statement, found %d" % (path, fn, len(stmts)))
-    prefix = "watchOnly:=s.rootManager.WatchOnly()||"
-    if not stmts[0].startswith(prefix):
-        raise ExtractError("%s: %s: statement %r not recognised" % (path, fn, stmts[0]))
-    test = stmts[0][len(prefix):]
+        raise ExtractError("%s: %s: expected exactly one flag `F := [!]s.rootManager.WatchOnly() ...`, found %d" % (path, fn, len(stmts)))
+    st = stmts[0]
+    m = re.fullmatch(r"(\w+):=" + W + r"\|\|(.+)", st)
+    if m:
+        flag, test, use, table = m.group(1), m.group(2), "!" + m.group(1), NO_KEY
+    else:
+        m = re.fullmatch(r"(\w+):=!" + W + r"&&(.+)", st)
+        if not m:
+            raise ExtractError("%s: %s: flag statement %r not recognised" % (path, fn, st))
+        flag, test, use, table = m.group(1), m.group(2), m.group(1), HAS_KEY
+    if test not in table:
+        raise ExtractError("%s: %s: test %r of flag %s not recognised" % (path, fn, test, flag))
     b = norm(body)
-    if "if!s.rootManager.IsLocked()&&!watchOnly{acctKey=acctInfo.acctKeyPriv}" not in b:
-        raise ExtractError("%s: %s: the choice of the account private key is not guarded by `!IsLocked() && !watchOnly`" % (path, fn))
-    if "ifs.rootManager.IsLocked()&&!watchOnly{s.deriveOnUnlock=append(s.deriveOnUnlock,info)}" not in b:
-        raise ExtractError("%s: %s: queueing for unlock is not guarded by `IsLocked() && !watchOnly`" % (path, fn))
-    return test
+    if "if!%s&&%s{acctKey=acctInfo.acctKeyPriv}" % (LOCKED, use) not in b:
+        raise ExtractError("%s: %s: the choice of the account private key is not guarded by `!IsLocked() && %s`" % (path, fn, use))
+    if "if%s&&%s{s.deriveOnUnlock=append(s.deriveOnUnlock,info)}" % (LOCKED, use) not in b:
+        raise ExtractError("%s: %s: queueing for unlock is not guarded by `IsLocked() && %s`" % (path, fn, use))
+    if len(re.findall(r"\b%s\b" % re.escape(flag), body)) != 3:
+        raise ExtractError("%s: %s: flag %s is used elsewhere too" % (path, fn, flag))
+    return table[test], "%s := ... %s" % (flag, test)
 
 
-def main(repo, outdir, write_if_changed):
+def source_fact_extend(repo):
     path = os.path.join(repo, "waddrmgr", "scoped_manager.go")
     src = strip_comments(open(path).read())
-    t_next = watch_only_test(method_body(src, "nextAddresses", path), "nextAddresses", path)
-    t_ext = watch_only_test(method_body(src, "extendAddresses", path), "extendAddresses", path)
-    if t_next != NO_PRIVATE_KEY:
-        raise ExtractError("%s: nextAddresses: watch-only test %r is not the one the model transcribes (%s)" % (path, t_next, NO_PRIVATE_KEY))
-    if t_ext == NO_PRIVATE_KEY:
-        val = "true"
-    elif t_ext == INVERTED:
-        val = "false"
-    else:
-        raise ExtractError("%s: extendAddresses: watch-only test %r not recognised" % (path, t_ext))
-    # the scope's lastAccount entry
+    t_next, d_next = account_key_test(method_body(src, "ScopedKeyManager", "nextAddresses", path), "nextAddresses", path)
+    t_ext, d_ext = account_key_test(method_body(src, "ScopedKeyManager", "extendAddresses", path), "extendAddresses", path)
+    if t_next != "same":
+        raise ExtractError("%s: nextAddresses: test (%s) is not the one the model transcribes" % (path, d_next))
+    return t_ext == "same", "nextAddresses: %s; extendAddresses: %s" % (d_next, d_ext)
+
+
+def source_fact_last_account(repo):
     mpath = os.path.join(repo, "waddrmgr", "manager.go")
     msrc = strip_comments(open(mpath).read())
-    new_scope = norm(method_body_of(msrc, "Manager", "NewScopedKeyManager", mpath))
+    new_scope = norm(method_body(msrc, "Manager", "NewScopedKeyManager", mpath))
     key_scope = norm(func_body(msrc, "createManagerKeyScope", mpath))
     if "createManagerKeyScope(" not in new_scope:
         raise ExtractError("%s: NewScopedKeyManager does not call createManagerKeyScope" % mpath)
     put = "putLastAccount(ns,&scope,DefaultAccountNum)"
     n_put = new_scope.count("putLastAccount(") + key_scope.count("putLastAccount(")
     if n_put == 0:
-        last = "false"
-    elif put in new_scope or put in key_scope:
-        last = "true"
-    else:
-        raise ExtractError("%s: putLastAccount call in NewScopedKeyManager/createManagerKeyScope not recognised" % mpath)
-    # DeriveFromKeyPathCache: the private flag handed to deriveKey
-    cbody = norm(method_body(src, "DeriveFromKeyPathCache", path))
+        return False, "no putLastAccount in NewScopedKeyManager / createManagerKeyScope"
+    if put in new_scope or put in key_scope:
+        return True, put
+    raise ExtractError("%s: putLastAccount call in NewScopedKeyManager/createManagerKeyScope not recognised" % mpath)
+
+
+def source_fact_cache_guard(repo):
+    path = os.path.join(repo, "waddrmgr", "scoped_manager.go")
+    src = strip_comments(open(path).read())
+    cbody = norm(method_body(src, "ScopedKeyManager", "DeriveFromKeyPathCache", path))
     m = re.findall(r"private:=(.*?)addrKey,err:=s\.deriveKey\(acctInfo,kp\.Branch,kp\.Index,private\)", cbody)
     if len(m) != 1:
         raise ExtractError("%s: DeriveFromKeyPathCache: `private := ...` before deriveKey(acctInfo, kp.Branch, kp.Index, private) not recognised" % path)
-    if m[0] == "!s.rootManager.IsLocked()&&!watchOnly":
-        guard = "false"
-    elif m[0] in ("!s.rootManager.IsLocked()&&!watchOnly&&acctInfo.acctKeyPriv!=nil",
-                  "!s.rootManager.IsLocked()&&!watchOnly&&len(acctInfo.acctKeyEncrypted)>0"):
-        guard = "true"
-    else:
-        raise ExtractError("%s: DeriveFromKeyPathCache: private flag %r not recognised" % (path, m[0]))
+    base = "!s.rootManager.IsLocked()&&!watchOnly"
+    if m[0] == base:
+        return False, "private := " + m[0]
+    if m[0] in (base + "&&acctInfo.acctKeyPriv!=nil", base + "&&len(acctInfo.acctKeyEncrypted)>0",
+                base + "&&len(acctInfo.acctKeyEncrypted)!=0"):
+        return True, "private := " + m[0]
+    raise ExtractError("%s: DeriveFromKeyPathCache: private flag %r not recognised" % (path, m[0]))
+
+
+SOURCE = {"extend_derives_private_when_unlocked": source_fact_extend,
+          "new_scope_stores_last_account": source_fact_last_account,
+          "derive_cache_checks_account_key": source_fact_cache_guard}
+
+
+# ------------------------------------------------------------------ behavioural fallback
+
+def _run_probe(repo):
+    """build harness/cmd/extract-c03 against `repo` and run it"""
+    import vlib
+    with vlib.Lock("go"):
+        os.makedirs(os.path.join(vlib.WORK, "bin"), exist_ok=True)
+        modflag = []
+        if repo == "/repo":
+            shutil.copyfile(os.path.join(repo, "go.sum"), os.path.join(vlib.HARNESS, "go.sum"))
+        else:
+            alt = os.path.join(vlib.WORK, "extract_c03_%s.mod" % hashlib.sha1(repo.encode()).hexdigest()[:8])
+            txt = open(os.path.join(vlib.HARNESS, "go.mod")).read().replace("=> /repo", "=> " + repo)
+            open(alt, "w").write(txt)
+            shutil.copyfile(os.path.join(repo, "go.sum"), alt[:-4] + ".sum")
+            modflag = ["-modfile=" + alt]
+        exe = os.path.join(vlib.WORK, "bin", "extract-c03")
+        p = subprocess.run(["go", "build"] + modflag + ["-o", exe, "./cmd/extract-c03"], cwd=vlib.HARNESS,
+                           env=vlib.GOENV, stdout=subprocess.PIPE, stderr=subprocess.PIPE, text=True, timeout=900)
+        if p.returncode != 0:
+            raise ExtractError("probe: harness/cmd/extract-c03 does not build against %s: %s" % (repo, (p.stdout + p.stderr)[-1500:]))
+    p = subprocess.run([exe], cwd=vlib.WORK, env=vlib.GOENV, stdout=subprocess.PIPE, stderr=subprocess.PIPE,
+                       text=True, timeout=300)
+    if p.returncode != 0:
+        raise ExtractError("probe: extract-c03 failed: %s" % p.stderr[-1500:])
+    return json.loads(p.stdout)
+
+
+def _all(xs, pred):
+    return len(xs) > 0 and all(pred(x) for x in xs)
+
+
+def probe_facts(repo, want):
+    """The facts in `want`, determined by running the waddrmgr built from `repo`.
+
+    extend_derives_private_when_unlocked.  The fact speaks about two decisions of
+    extendAddresses, each a function of (manager locked?, account has an encrypted private key?):
+    "derive the new addresses from the account PRIVATE key" and "queue them for the next
+    unlock".  The probe runs all four input combinations and reads each decision off the API
+    (several scopes, both branches, one or several new indices; the extended addresses are
+    fetched through Manager.Address, i.e. the objects extendAddresses put into the cache):
+      a. seed account, unlocked:  PrivKey() of the extended addresses succeeds  <=>  they were
+         derived from the private key (a public-only object answers ErrWatchingOnly);
+      b. seed account, locked, then Unlock:  PrivKey() succeeds  <=>  they were queued;
+      c. imported xpub account, unlocked:  the call returns (no nil dereference) and PrivKey()
+         answers ErrWatchingOnly  <=>  it did not reach for the (nil) account private key;
+      d. imported xpub account, locked, then Unlock:  Unlock returns (no nil dereference in its
+         deriveOnUnlock loop) and PrivKey() answers ErrWatchingOnly  <=>  they were not queued.
+    nextAddresses' test gives (ok, ok, watching, watching) - this is the same minimal scenario
+    as C03_refuted_when_false / corpus/C03/S3_extend_unlocked.jsonl, completed to all four
+    combinations.  The inverted test gives (watching, ok, panic, panic).  true iff the first
+    signature shows in every instance, false iff the second does; anything else is neither
+    instance of the model and fails the probe path.
+
+    new_scope_stores_last_account.  Unlock, NewScopedKeyManager(custom scope), then the first
+    NewAccount (two scopes) / NewAccountWatchingOnly (one scope): the number returned is
+    lastAccount+1, i.e. 1 iff the scope's lastAccount entry was stored as 0, and 0 (the wrapped
+    2^32-1 + 1) iff it is missing (corpus/C03/F2_*.jsonl, custom_scope_account_zero_reused).
+
+    derive_cache_checks_account_key.  Import an xpub account, unlock, load it into the account
+    cache (AccountProperties), call DeriveFromKeyPathCache for it: with the guard the public
+    derivation yields an error, without it deriveKey dereferences the nil private key (a panic)
+    (corpus/C03/F3_*.jsonl); two scopes/branches; the same call for the seed account must
+    return a key in both cases."""
+    r = _run_probe(repo)
+    out, why = {}, {}
+    if "extend_derives_private_when_unlocked" in want:
+        sig = (r["extend_seed_unlocked"], r["extend_seed_locked_then_unlock"],
+               r["extend_imported_unlocked"], r["extend_imported_locked_then_unlock"])
+        ok = lambda x: x == "ok"                      # noqa: E731
+        wat = lambda x: x == "watching"               # noqa: E731
+        pan = lambda x: x.startswith("panic:")        # noqa: E731
+        if _all(sig[0], ok) and _all(sig[1], ok) and _all(sig[2], wat) and _all(sig[3], wat):
+            out["extend_derives_private_when_unlocked"] = True
+        elif _all(sig[0], wat) and _all(sig[1], ok) and _all(sig[2], pan) and _all(sig[3], pan):
+            out["extend_derives_private_when_unlocked"] = False
+        else:
+            raise ExtractError("probe: extendAddresses behaves like neither test: unlocked/seed %r, locked/seed %r, "
+                               "unlocked/imported %r, locked/imported %r" % sig)
+        why["extend_derives_private_when_unlocked"] = "extend x (lock state, account kind): %s" % (list(map(lambda l: l[0], sig)),)
+    if "new_scope_stores_last_account" in want:
+        xs = r["new_scope_first_account"]
+        if _all(xs, lambda x: x == "1"):
+            out["new_scope_stores_last_account"] = True
+        elif _all(xs, lambda x: x == "0"):
+            out["new_scope_stores_last_account"] = False
+        else:
+            raise ExtractError("probe: first account numbers of new custom scopes: %r" % (xs,))
+        why["new_scope_stores_last_account"] = "first account of a new custom scope: %s" % xs[0]
+    if "derive_cache_checks_account_key" in want:
+        xs, ys = r["derive_cache_imported"], r["derive_cache_seed"]
+        if not _all(ys, lambda y: y == "key"):
+            raise ExtractError("probe: DeriveFromKeyPathCache for a seed account: %r" % (ys,))
+        if _all(xs, lambda x: x == "error"):
+            out["derive_cache_checks_account_key"] = True
+        elif _all(xs, lambda x: x == "panic"):
+            out["derive_cache_checks_account_key"] = False
+        else:
+            raise ExtractError("probe: DeriveFromKeyPathCache for a cached imported account: %r" % (xs,))
+        why["derive_cache_checks_account_key"] = "DeriveFromKeyPathCache on a cached imported account: %s" % xs[0]
+    return out, why, r.get("nprobes", 0)
+
+
+def sanitize(msg):
+    return re.sub(r"\s+", " ", msg).replace("(*", "( *").replace("*)", "* )")
+
+
+def cbool(b):
+    return "true" if b else "false"
+
+
+def main(repo, outdir, write_if_changed):
+    facts, detail, failed = {}, {}, {}
+    for name in FACTS:
+        try:
+            facts[name], detail[name] = SOURCE[name](repo)
+        except (ExtractError, OSError) as e:
+            failed[name] = sanitize(str(e).replace(repo.rstrip("/") + "/", ""))
+    source_line = "source (shape of scoped_manager.go / manager.go recognised)"
+    if failed:
+        try:
+            got, why, n = probe_facts(repo, set(failed))
+        except (ExtractError, OSError, ValueError, KeyError, subprocess.SubprocessError) as e2:
+            raise ExtractError("source shape not recognised (%s) AND probing the built code failed (%s)" % (
+                "; ".join("%s: %s" % kv for kv in sorted(failed.items())), e2))
+        for name in failed:
+            facts[name] = got[name]
+            detail[name] = "PROBED (%s); source shape not recognised: %s" % (why[name], failed[name][:300])
+        source_line = ("probe (%s determined by running the code built from the repository, harness/cmd/extract-c03, "
+                       "%d scenario runs; the other facts by source shape)" % (", ".join(sorted(failed)), n))
     text = """(** GENERATED by lib/extract_c03.py from waddrmgr/scoped_manager.go and waddrmgr/manager.go -
     do not edit; bin/extract rewrites it from the current source. *)
+(* facts source: %s *)
 
-(* nextAddresses:   watchOnly := s.rootManager.WatchOnly() || %s
-   extendAddresses: watchOnly := s.rootManager.WatchOnly() || %s
+(* %s
    true iff extendAddresses derives from the account private key (and queues for
    unlock) under the same test as nextAddresses. *)
 Definition extend_derives_private_when_unlocked : bool := %s.
 
-(* true iff NewScopedKeyManager / createManagerKeyScope store the new scope's lastAccount
+(* %s
+   true iff NewScopedKeyManager / createManagerKeyScope store the new scope's lastAccount
    (putLastAccount(ns, &scope, DefaultAccountNum)) *)
 Definition new_scope_stores_last_account : bool := %s.
 
-(* true iff DeriveFromKeyPathCache asks deriveKey for a private derivation only when the
+(* %s
+   true iff DeriveFromKeyPathCache asks deriveKey for a private derivation only when the
    account private key is in memory *)
 Definition derive_cache_checks_account_key : bool := %s.
-""" % (t_next, t_ext, val, last, guard)
+""" % (sanitize(source_line),
+       sanitize(detail[FACTS[0]]), cbool(facts[FACTS[0]]),
+       sanitize(detail[FACTS[1]]), cbool(facts[FACTS[1]]),
+       sanitize(detail[FACTS[2]]), cbool(facts[FACTS[2]]))
     write_if_changed(os.path.join(outdir, "AddrFacts.v"), text)
